@@ -101,8 +101,11 @@ Definition check_norm (a f d : nat) (os : list nat) (i : ainstr) : bool :=
        | CNorm f' d' os' => (f =? f') && (d' =? d + 1) && list_eqb os os'
        | _ => false end) &&
       (1 <=? r) && handler_ok (r - 1) f
+  (* a CALL with no open MARK re-uses the running frame (tail call): RET of the callee then
+     unwinds through the header below P, which exists only inside a function -- at top level
+     (P = 0) the callee's RET would find no header (Crash BadHeader), hence is_entry f *)
   | ACall => (1 <=? avail d os) && handler_ok a f &&
-             (match os with [] => (1 <=? d + base f) | _ => true end)
+             (match os with [] => (1 <=? d + base f) && is_entry f | _ => true end)
   | ARet ffi => (match os with [] => true | _ => false end) && (d =? 1) && (Bool.eqb ffi (is_ffi f)) &&
                 is_entry f
   | ARethrow => false
@@ -123,7 +126,9 @@ Definition check_norm (a f d : nat) (os : list nat) (i : ainstr) : bool :=
 
 Definition check_exc (a f : nat) (i : ainstr) : bool :=
   match i with
-  | AOp [] 0 0 => exc_ok (S a) f
+  (* the shape machine lets every AOp fault (observed ip' <> a+1 is read as a jump to the
+     handler of a), so the handler of a handler-entry LABEL must be certified as well *)
+  | AOp [] 0 0 => exc_ok (S a) f && handler_ok a f
   | AClear n => (n =? np f) && negb (is_ffi f) && is_entry f && succ_ok (S a) f 0 []
   | ARethrow => is_entry f
   | AUnhandled => f =? 0
